@@ -27,6 +27,7 @@
 #ifdef VQ_Q_HAS_INT_CONV
 #include <amgcl/relaxation/ilut.hpp>
 #endif
+#include <amgcl/relaxation/spai1.hpp>
 #include <amgcl/relaxation/as_preconditioner.hpp>
 #include <amgcl/value_type/complex.hpp>
 #include <complex>
@@ -165,5 +166,28 @@ VQ_OP(spai0_cplx) {
     std::vector<double> out; for (long i = 0; i < n; ++i) { out.push_back((*S.M)[i].real()); out.push_back((*S.M)[i].imag()); }
     return show(out);
 }
+
+// SPAI-1 in the double build (Householder QR needs a true square root): d.spai1_m <A> -> M,
+// d.spai1 <mode> <A> <rhs> <x> -> x ; doubles printed as exact rationals, compared with the exact
+// least-squares model up to a tolerance by tools/props/C06.py
+typedef amgcl::backend::builtin<double> BD;
+static std::string op_d_spai1_m(vq::Tok &t) {
+    auto A = t.crsT<double>();
+    rx::spai1<BD> S(*A, rx::spai1<BD>::params(), BD::params());
+    return vq::show_crs(*S.M);
+}
+static vq::Reg reg_d_spai1_m("d.spai1_m", op_d_spai1_m);
+static std::string op_d_spai1(vq::Tok &t) {
+    std::string mode = t.s(); auto A = t.crsT<double>(); std::vector<double> rhs = t.vecT<double>(), x = t.vecT<double>();
+    rx::spai1<BD>::params prm; BD::params bprm;
+    if (mode == "asprec") { rx::as_preconditioner<BD, rx::spai1> P(A, prm, bprm); P.apply(rhs, x); return show(x); }
+    rx::spai1<BD> S(*A, prm, bprm); std::vector<double> tmp(A->nrows);
+    if      (mode == "pre")   S.apply_pre (*A, rhs, x, tmp);
+    else if (mode == "post")  S.apply_post(*A, rhs, x, tmp);
+    else if (mode == "apply") S.apply(*A, rhs, x);
+    else return "BADMODE";
+    return show(x);
+}
+static vq::Reg reg_d_spai1("d.spai1", op_d_spai1);
 
 int main() { return vq::driver_main(); }
